@@ -50,7 +50,9 @@ func judgeC08(sc *Scope, rings [][]ref.P, acc *Acc) []Problem {
 			res, pan := run(sc.G, poly, ids, cfg)
 			acc.Calls++
 			if pan != nil {
+				// every id of the set returns normally when requested alone: the panic itself depends on the other ids
 				acc.Extra["panicked(C06)"]++
+				probs = append(probs, Problem{Sig: "panics-only-with-other-ids", What: fmt.Sprintf("ids %v requested together panic (%v); each of them requested alone returns normally", ids, pan), IDs: ids, Cfg: cfg})
 				continue
 			}
 			acc.outcome(res)
